@@ -100,7 +100,7 @@ def run_backend(backend, txt, timeout, want_model=False):
     return verdict, out, dt
 
 
-def _start(backend, txt, timeout, want_model=False):
+def _start(backend, txt, timeout, want_model=False, seed=None):
     txt = _prep(txt, backend)
     if want_model:
         txt = txt + "\n(get-model)\n"
@@ -111,6 +111,8 @@ def _start(backend, txt, timeout, want_model=False):
         cmd.append("--tlimit=%d" % int(timeout * 1000))
     else:
         cmd.append("-T:%d" % max(1, int(timeout)))
+    if seed is not None:
+        cmd += ["--seed=%d" % seed] if backend == "cvc5" else ["smt.random_seed=%d" % seed, "sat.random_seed=%d" % seed]
     fd, path = tempfile.mkstemp(suffix=".smt2", prefix="pyvc_")
     with os.fdopen(fd, "w") as f:
         f.write(txt)
@@ -126,7 +128,7 @@ def _verdict(out):
     return "unknown" if (not out or "timeout" in out or "interrupted" in out.lower()) else "error"
 
 
-def solve(txt, timeout=20, order=None):
+def solve(txt, timeout=20, order=None, seed=None):
     """race the three back ends; unsat by any = discharged; sat by any = refuted (model from that back end);
     otherwise unknown.  -> dict(verdict, backend, time, raw, tried)"""
     if order is None:
@@ -134,7 +136,7 @@ def solve(txt, timeout=20, order=None):
     t0 = time.time()
     procs = {}
     for b in order:
-        procs[b] = _start(b, txt, timeout, want_model=True)
+        procs[b] = _start(b, txt, timeout, want_model=True, seed=seed)
     tried = []
     result = None
     pending = dict(procs)
